@@ -75,11 +75,27 @@ def units(chk: Check) -> List[Tuple[str, FuncInfo, Any, Set[str], str]]:
     F = chk.facts
     out = []
     tab = functab.table(F)
+    # helpers that dispatch on an operator string passed by the grammar are analysed once per operator
+    op_param: Dict[str, Tuple[str, List[str]]] = {}
+    try:
+        from .c12 import common_ops
+        for fm in common.assignment_forms(chk):
+            if fm['target'] == 'fn' and fm['compound'] and fm['op_idx'] is not None:
+                params = [a.arg for a in F.func(fm['fn']).node.args.args]
+                op_param[fm['fn']] = (params[fm['op_idx']], common_ops(chk, fm))
+    except AnalysisError:
+        pass
     for key, ent in tab.items():
         fi = ent.funcinfo(F)
         if fi is None:
             continue
-        out.append((ent.label + ' -> ' + (ent.target if ent.kind == 'fn' else 'lambda'), fi, lambda fi=fi: SymExec(F, fi).run(), set(), fi.where))
+        lab = ent.label + ' -> ' + (ent.target if ent.kind == 'fn' else 'lambda')
+        if ent.kind == 'fn' and ent.target in op_param:
+            pn, ops = op_param[ent.target]
+            for op in ops:
+                out.append((lab + ' [op=%r]' % op, fi, lambda fi=fi, pn=pn, op=op: SymExec(F, fi, args={pn: ('const', op)}).run(), set(), fi.where))
+            continue
+        out.append((lab, fi, lambda fi=fi: SymExec(F, fi).run(), set(), fi.where))
     for cls in om.op_classes(F):
         if not om.own_eval(F, cls) or cls == om.ROOT:
             continue
@@ -137,7 +153,10 @@ def check(chk: Check) -> None:
     R3 = chk.rule('C03.R3', 'no amplifier without a cap: every primitive whose result can be longer than each of its '
                             'inputs (sequence + and *, their in-place forms, join / replace / text-of-value, '
                             'split / findall, extend / update) has its result checked against the cap before it is '
-                            'stored or returned', floor=8)
+                            'stored or returned', floor=0)
+    R4 = chk.rule('C03.R4', 'the size check comes first: in every element-adding builtin no keyed access, method call or '
+                            'hand-over of the container precedes its size check (a host mapping\'s __getitem__/__missing__ may '
+                            'insert; a failed operation must leave the container unchanged)', floor=4)
     chk.decided += ['clause 2 of the statement (element-adding operations at the cap): guard comparison, constant, failure '
                     'class and dominance over every +1 growth path (R1, R2)',
                     'clause 1 as an inductive invariant: inventory of every reachable primitive that can exceed '
@@ -147,6 +166,7 @@ def check(chk: Check) -> None:
                         'str -> list builtins are length-preserving']
     guards_seen: Dict[int, Dict[str, Any]] = {}
     growth_seen: Dict[str, Tuple[bool, str, str]] = {}
+    first_touch: Dict[str, Tuple[bool, str, str]] = {}
     amp_seen: Dict[str, Tuple[bool, str, str]] = {}
     tab = functab.table(F)
 
@@ -169,6 +189,7 @@ def check(chk: Check) -> None:
                 closures.append(closure_paths(F, fi, c))
         for plist in [paths] + closures:
             for p in plist:
+                _first_touch(F, p, label, fi, ignore, first_touch)
                 passed: Dict[Any, int] = {}        # object -> k ruled out
                 for idx, e in enumerate(p.events):
                     wh = '%s:%d' % (fi.module.rel if e.depth() == 0 else _rel_of(F, e.fn, fi), e.line)
@@ -226,6 +247,8 @@ def check(chk: Check) -> None:
                     # ---- amplifiers
                     _amplifiers(F, e, p, label, fi, ignore, amp_seen, wh)
 
+    for key, (ok, wh, det) in sorted(first_touch.items()):
+        chk.require(ok, R4, key, wh, det)
     for gid, g in sorted(guards_seen.items(), key=lambda kv: kv[1]['where']):
         ks = sorted(g['k'])
         problems = []
@@ -262,7 +285,7 @@ def _is_message_only(e: Event, p: Path) -> bool:
 def _amplifiers(F, e: Event, p: Path, label: str, fi, ignore, amp_seen, wh: str) -> None:
     unit = e.fn if e.depth() else label.split(' [')[0]
     arm = ''
-    if ' [op=' in label:
+    if ' [op=' in label and not e.depth():
         arm = label[label.index(' [op='):]
 
     def program_value(t) -> bool:
@@ -349,3 +372,49 @@ def _len_bounded(t) -> bool:
     if isinstance(t, tuple) and t and t[0] in ('phi',):
         return _len_bounded(t[3])
     return False
+
+
+def _first_touch(F, p: Path, label: str, fi, ignore, out) -> None:
+    """For each container that is grown on this path: the first event that touches it must come after its size check."""
+    grown = []
+    for e in p.events:
+        X = None
+        if e.kind == 'call' and not e.d.get('inlined'):
+            f = freeze(e.func)
+            if isinstance(f, tuple) and f and f[0] == 'attr' and f[2] in GROW_METHODS and not e.d.get('on_fresh_list'):
+                X = f[1]
+        elif e.kind in ('store_sub', 'aug_sub'):
+            X = freeze(e.obj)
+        if X is not None and param_root(X) is not None and param_root(X) not in ignore and X not in grown:
+            grown.append(X)
+    for X in grown:
+        checked = False
+        for e in p.events:
+            if e.kind == 'assume':
+                ro = cap_form(e.cond, not e.value)
+                if ro is not None and ro[0] == X:
+                    checked = True
+                    break
+                continue
+            touch = None
+            if e.kind in ('load_sub', 'del_sub') and freeze(e.obj) == X:
+                touch = 'keyed access'
+            elif e.kind in ('store_sub', 'aug_sub') and freeze(e.obj) == X:
+                touch = 'store'
+            elif e.kind == 'call' and not e.d.get('inlined'):
+                f = freeze(e.func)
+                if isinstance(f, tuple) and f and f[0] == 'attr' and f[1] == X:
+                    touch = 'method .%s' % f[2]
+                elif not (isinstance(f, tuple) and f[:2] == ('ref', 'builtin') and f[2] in ('len', 'isinstance', 'type', 'id')) \
+                        and any(a == X for a in freeze(e.args)):
+                    touch = 'hand-over to %s' % show(f)
+            if touch:
+                unit = e.fn if e.depth() else label.split(' [')[0]
+                key = '%s :: `%s` before the size check of `%s`' % (unit, e.text(), show(X))
+                out[key] = (False, '%s:%d' % (fi.module.rel, e.line),
+                            '%s of the container happens before its size check: when the check then fails, the container may '
+                            'already have changed (a host mapping that inserts on lookup, e.g. a defaultdict, grows past the cap)' % touch)
+                break
+        if checked:
+            unit = label.split(' [')[0]
+            out.setdefault('%s :: size check of `%s` comes first' % (unit, show(X)), (True, fi.where, 'nothing touches the container before its size check'))
